@@ -178,8 +178,13 @@ fn get_metric_servers(path: &Path) -> Result<BTreeMap<NodeId, url::Url>> {
                 }
 
                 if let Some(cap) = re_metrics_server.captures_iter(&line).next() {
-                    let url = url::Url::parse(&cap[1])
-                        .expect("Failed to parse metrics server URL from node log");
+                    let url = url::Url::parse(&cap[1]).map_err(|err| {
+                        eyre!(
+                            "Failed to parse metrics server URL {:?} from node log {}: {err}",
+                            &cap[1],
+                            file_path.display()
+                        )
+                    })?;
                     metrics_server_url = Some(url);
                 }
             }
